@@ -207,6 +207,11 @@ def build_region(r):
             r.item = it
             extra = [x for x in r.opts.get("rules", "").split(",") if x]
             cur = rules.normalise_fn(it.tokens, extra, r.firings, "%s::%s" % (path, r.name))
+            for hname, hbody, hself, hwhere in INLINE.get(r.name, []):
+                cur, cnt = inline_helper(cur, hname, hbody, hself)
+                if cnt:
+                    r.firings.append({"rule": "R-autoinline", "where": "%s::%s" % (path, r.name), "before": "%s ( )" % hname, "after": "( " + " ".join(hbody)[:200] + " )",
+                                      "note": "call of a one-expression helper that is not part of the unit (%s) replaced by its body; exact for a parameterless pure accessor / predicate" % hwhere})
             if "@for@" in cont or "nopub" in r.opts:
                 cur = cur[1:]   # trait impl methods carry no visibility
             ann = lex.tokenize(r.body)
@@ -323,6 +328,83 @@ def _isolate(chunks, pid):
         if isinstance(c, Region):
             c.body = filt(c.body)
     return [c if isinstance(c, Region) else filt(c) for c in chunks]
+
+
+def find_trivial_helper(name, type_hint=None):
+    """a function `name` of /repo that takes only `self` (or nothing) and whose body is one expression -> (file, container, body tokens, has_self)
+    Used to inline helpers that a change introduced (a new accessor / predicate), so that the caller is verified on its real meaning."""
+    import glob
+    found = []
+    for path in sorted(glob.glob(os.path.join(REPO, "src", "**", "*.rs"), recursive=True)):
+        rel = os.path.relpath(path, REPO)
+        try:
+            src = source(rel)
+        except Exception:
+            continue
+        for it in src.items:
+            if it.kind != "fn" or it.name != name or it.is_cfg_test():
+                continue
+            cont = it.container or ""
+            if type_hint and cont and type_hint not in cont:
+                continue
+            toks = rules.apply_rules(list(it.tokens), (), None, "")
+            try:
+                k = toks.index("fn")
+                o = toks.index("(", k)
+                c = lex.match_close(toks, o)
+            except ValueError:
+                continue
+            params = toks[o + 1:c]
+            while params and params[-1] == ",":
+                params.pop()
+            if params not in ([], ["&", "self"], ["&", "mut", "self"], ["self"]):
+                continue
+            b = c + 1
+            while b < len(toks) and toks[b] != "{":
+                if toks[b] in ("(", "["):
+                    b = lex.match_close(toks, b)
+                b += 1
+            if b >= len(toks):
+                continue
+            e = lex.match_close(toks, b)
+            body = toks[b + 1:e]
+            depth0 = []
+            i = 0
+            while i < len(body):
+                if body[i] in lex.OPEN:
+                    i = lex.match_close(body, i) + 1
+                    continue
+                depth0.append(body[i])
+                i += 1
+            if not body or ";" in depth0 or "return" in body or "?" in depth0 or "await" in body:
+                continue
+            found.append((rel, cont, body, bool(params)))
+    return found[0] if len(found) == 1 else None
+
+
+def inline_helper(toks, name, body, has_self):
+    """replace `recv . name ( )` (recv = self or one identifier) / `name ( )` / `Self :: name ( )` by `( body[self := recv] )`"""
+    out, i, n = [], 0, 0
+    while i < len(toks):
+        if has_self and i + 4 < len(toks) + 1 and toks[i + 1:i + 5] == [".", name, "(", ")"] and (toks[i][0].isalpha() or toks[i][0] == "_") and not (i > 0 and toks[i - 1] == "."):
+            recv = toks[i]
+            out += ["("] + [recv if t == "self" else t for t in body] + [")"]
+            i += 5
+            n += 1
+            continue
+        if not has_self and toks[i:i + 3] == [name, "(", ")"] and not (i > 0 and toks[i - 1] in (".", "fn")):
+            if out[-2:] == ["Self", "::"]:
+                out = out[:-2]
+            out += ["("] + list(body) + [")"]
+            i += 3
+            n += 1
+            continue
+        out.append(toks[i])
+        i += 1
+    return out, n
+
+
+INLINE = {}     # region name -> [(helper name, body tokens, has_self, where)]: helpers inlined on demand (see check::_verify_unit)
 
 
 def stub_text(r):
@@ -514,7 +596,8 @@ def dependents(built, stubbed_name, pid):
         short.setdefault(r.args[2], []).append(r.name)
     calls = {}
     for r in fns:
-        toks = lex.tokenize(r.body)
+        # the current text decides who calls whom (a function that no longer calls a removed helper does not depend on it)
+        toks = lex.tokenize(r.out_text if r.out_text is not None else r.body)
         out = set()
         for i in range(len(toks) - 1):
             if toks[i + 1] == "(" and toks[i] in short and not (i > 0 and toks[i - 1] == "fn"):
